@@ -131,7 +131,16 @@ pub fn math_round(
     args: &[JsValue],
 ) -> Result<Guarded, JsError> {
     let n = args.first().map(|v| v.to_number()).unwrap_or(f64::NAN);
-    Ok(Guarded::unguarded(JsValue::Number(prelude_math::round(n))))
+    // Math.round rounds halves towards +Infinity (-2.5 -> -2) and keeps the sign of a zero
+    // result (-0.5 -> -0): neither is what rounding half away from zero does
+    let floor = prelude_math::floor(n);
+    let rounded = if n - floor >= 0.5 { floor + 1.0 } else { floor };
+    let result = if rounded == 0.0 && n.is_sign_negative() {
+        -0.0
+    } else {
+        rounded
+    };
+    Ok(Guarded::unguarded(JsValue::Number(result)))
 }
 
 pub fn math_trunc(
@@ -156,7 +165,8 @@ pub fn math_sign(
     } else if n < 0.0 {
         -1.0
     } else {
-        0.0
+        // +0 and -0 are returned as they are
+        n
     };
     Ok(Guarded::unguarded(JsValue::Number(result)))
 }
@@ -175,7 +185,8 @@ pub fn math_min(
         if n.is_nan() {
             return Ok(Guarded::unguarded(JsValue::Number(f64::NAN)));
         }
-        if n < min {
+        // -0 is smaller than +0
+        if n < min || (n == 0.0 && min == 0.0 && n.is_sign_negative()) {
             min = n;
         }
     }
@@ -196,7 +207,8 @@ pub fn math_max(
         if n.is_nan() {
             return Ok(Guarded::unguarded(JsValue::Number(f64::NAN)));
         }
-        if n > max {
+        // +0 is larger than -0
+        if n > max || (n == 0.0 && max == 0.0 && n.is_sign_positive()) {
             max = n;
         }
     }
